@@ -47,11 +47,12 @@ RULE = (
     "SensingAgent. calendar lattice (both tiers): EVERY family above (direct with the corner sites, propagate, scenario, "
     "midrun, midrun_event, import) is also started at each instant of {31 Jan 23:59:30, 1 Feb 00:00:00, 1 Feb 00:00:30, "
     "15 Feb 12:00:00, 28 Feb 23:59:30, [29 Feb 00:00:00, 12:00:00, 23:59:30], 1 Mar 00:00:00, 1 Mar 00:00:30} of the "
-    "leap years 2016 and 2020 and of a common year (control; thorough: all common years of the table); real scenarios "
-    "are run through the 31 Jan, 28 Feb and 29 Feb midnights (steps 2/60/300 s) and through the whole of February "
-    "(31 Jan 21:00:30 -> 2 Mar) and the angle each site turns about the pole of date between consecutive epochs / "
+    "leap years 2016 and 2020 and of the common year 2019 (control; thorough: 2015, 2017-2019, 2021, 2022); real scenarios "
+    "are run through the 31 Jan, 28 Feb and 29 Feb midnights of those years (steps 2/60/300 s) and through the whole of "
+    "February 2020 (31 Jan 21:00:30 -> 2 Mar, 10800 s steps; thorough also 2016, 2019 and 3600 s steps) and the angle each "
+    "site turns about the pole of date between consecutive epochs / "
     "TruthEphemeris rows is compared with the independent sidereal-angle difference (scenario/rotation_per_step, every "
-    "scenario run). calendar sweep: for every day of the listed leap and common years Terrestrial.propagate is audited "
+    "scenario run). calendar sweep: for every day of those leap and common years (thorough: 2014-2021) Terrestrial.propagate is audited "
     "at 00:00:00 (reached across the preceding midnight), 12:00:00 and 23:59:59, and the library's day-of-year is "
     "compared with ordinal calendar arithmetic (also for every day of 1900, 2000, 2024 and 2100: century rule). "
     "non-trivial = start second != 0, or the elapsed time crosses midnight, or (propagate) t0 != 0, or "
